@@ -1,6 +1,6 @@
 """C37: QoS validation — inconsistent combinations are rejected with InconsistentPolicy, changes of immutable policies of an
-enabled entity with ImmutablePolicy (this module: the rule functions; the set_qos atomicity through the public API is
-exercised by the dsim-based part when that engine is present)."""
+enabled entity with ImmutablePolicy; part 1: the rule functions (engine match), part 2: set_qos/get_qos atomicity through the
+public API in the deterministic simulator (dsim)."""
 from vlib.match_common import *
 
 RULE = ("writer / reader / topic QoS values with boundary-biased history depth vs max_samples_per_instance vs max_samples "
@@ -8,7 +8,7 @@ RULE = ("writer / reader / topic QoS values with boundary-biased history depth v
         "(current, requested) differing in 0-2 policies for the immutability rule; a case is non-trivial when a finite limit or a "
         "finite deadline/separation is involved (consistency) or the two QoS differ (immutability); distinct by canonical op line")
 ASSUMPTIONS = ["DATA_REPRESENTATION is treated as changeable by the code (not part of check_immutability); the XTypes specification lists it as not changeable - recorded in DESIGN.md as an observation, the property text names no policy list",
-               "set_qos sequencing (validate, immutability if enabled, store, announce) is the 3-branch function setQos of the model; its tie to the entity API needs the simulator engine"]
+               "set_qos sequencing (validate, immutability if enabled, store, announce) is the 3-branch function setQos of the model, tied to DataWriterAsync/DataReaderAsync::set_qos/get_qos through the simulator (150 scenarios quick, 4000 thorough)"]
 
 
 def spec_limits_ok(e):
@@ -57,6 +57,134 @@ def oracle(case, out):
     return []
 
 
+# ---------------------------------------------------------------- part 2: set_qos / get_qos through the public API (dsim)
+from vlib.core import run_cases, harness_bin, model_bin, case_hash
+from vlib import dsim_common as D
+
+DSIM_DUR = {"durability": ["volatile", "transient_local", "transient", "persistent"],
+            "liveliness": ["automatic", "manual_participant", "manual_topic"],
+            "reliability": ["best_effort", "reliable"], "order": ["reception", "source"], "ownership": ["shared", "exclusive"]}
+
+
+def ns(d):
+    if d == "inf":
+        return "inf"
+    a, b = d.split(":")
+    return str(int(a) * 1000000000 + int(b))
+
+
+def api_tokens(e, reader):
+    t = [f"durability={DSIM_DUR['durability'][int(e['dur'])]}", f"liveliness={DSIM_DUR['liveliness'][int(e['livk'])]}",
+         f"lease={ns(e['lease'])}", f"reliability={DSIM_DUR['reliability'][int(e['rel'])]}", f"max_blocking={ns(e['mbt'])}",
+         f"order={DSIM_DUR['order'][int(e['do'])]}",
+         "history=keep_all" if e["depth"] == "all" else f"history=keep_last:{e['depth']}",
+         f"max_samples={'inf' if e['ms'] == '-' else e['ms']}", f"max_instances={'inf' if e['mi'] == '-' else e['mi']}",
+         f"max_spi={'inf' if e['mspi'] == '-' else e['mspi']}", f"ownership={DSIM_DUR['ownership'][int(e['own'])]}",
+         f"deadline={ns(e['dl'])}",
+         "repr=" + ("-" if e["repr"] == "-" else ",".join({"0": "xcdr1", "2": "xcdr2"}[x] for x in e["repr"].split(","))),
+         "user_data=" + e["ud"].encode().hex()]
+    if reader:
+        t.append(f"tbf={ns(e['minsep'])}")
+    return t
+
+
+def gen_api_ent(r, base=None):
+    e = gen_ent(r, base)
+    for k in ("lease", "mbt", "dl", "minsep"):
+        if e[k] not in ("inf",) and int(e[k].split(":")[0]) > 1000:
+            e[k] = "5:0"
+    if e["minsep"] == "inf":
+        e["minsep"] = "0:0"
+    if e["repr"] != "-":
+        e["repr"] = ",".join(x for x in e["repr"].split(",") if x in ("0", "2")) or "-"
+    for k in ("ms", "mi", "mspi"):
+        if e[k] == "2147483647":
+            e[k] = "7"
+    if e["depth"] == "0":
+        e["depth"] = "1"
+    return e
+
+
+def api_case(r):
+    reader = r.chance(1, 2)
+    enabled = 0 if r.chance(1, 4) else 1
+    cur = gen_api_ent(r)
+    if r.chance(3, 4):
+        # make the starting QoS consistent most of the time so that the entity exists
+        if cur["depth"] != "all" and cur["mspi"] != "-" and int(cur["depth"]) > int(cur["mspi"]):
+            cur["mspi"] = cur["depth"]
+        if len_key(cur["ms"]) < len_key(cur["mspi"]):
+            cur["ms"] = "-"
+        if dur_key(cur["dl"]) < dur_key(cur["minsep"]):
+            cur["minsep"] = "0:0"
+        if cur["repr"].count(",") >= 1 and not reader:
+            cur["repr"] = cur["repr"].split(",")[0]
+    new = gen_api_ent(r, base=cur)
+    kind = "reader" if reader else "writer"
+    parent = "sub" if reader else "pub"
+    lines = [f"participant P autoenable={enabled}" if not enabled else "participant P", "topic t P T ki",
+             "publisher pub P", "subscriber sub P",
+             f"{kind} e {parent} t " + " ".join(api_tokens(cur, reader)), "get-qos e",
+             "set-qos e " + " ".join(api_tokens(new, reader)), "get-qos e"]
+    model = [f"{'rcons' if reader else 'wcons'} {fmt_ent(cur)}", f"{'rset' if reader else 'wset'} {enabled} {fmt_ent(cur)} | {fmt_ent(new)}"]
+    return Case(lines, {"model": model, "reader": reader, "enabled": enabled, "cur": cur, "new": new})
+
+
+def qos_fields(line):
+    return dict(t.split("=", 1) for t in line.split()[1:]) if line.startswith("ok ") else None
+
+
+def run_api(ctx, n):
+    r = ctx.rng
+    cases = [api_case(r) for _ in range(n)]
+    outs, _ = run_cases([harness_bin("dsim")], cases, timeout=1500)
+    mcases = [Case(c.meta["model"]) for c in cases]
+    mouts, _ = run_cases([model_bin(), "match"], mcases)
+    for c, o, mo in zip(cases, outs, mouts):
+        ctx.stats["evaluations"] += 1
+        ctx.count("api:" + ("reader" if c.meta["reader"] else "writer") + (":enabled" if c.meta["enabled"] else ":disabled"))
+        h = case_hash(c.lines)
+        if c.meta["cur"] != c.meta["new"] and h not in ctx._seen:
+            ctx._seen.add(h); ctx.stats["distinct_nontrivial"] += 1
+        if len(ctx.samples) < 10:
+            ctx.samples.append({"ops": c.lines[4:], "impl": o[4:]})
+        if len(o) < 8 or any(x in ("PANIC", "HANG", "POISONED") or x.startswith("CRASH") for x in o):
+            ctx.violations.append({"what": "entity QoS scenario panicked / hung", "ops": c.lines, "out": o}); continue
+        created, setres = o[4], o[6]
+        # model prediction
+        m_create = "ok" if mo[0] == "ok" else "err:" + mo[0]
+        got_create = "ok" if created.startswith("ok") else created
+        if got_create != m_create:
+            ctx.disagreements.append({"what": "model and implementation differ on creation", "ops": c.lines, "impl": created, "model": mo[0]})
+        exp_create = expected("rcons" if c.meta["reader"] else "wcons", c.meta["cur"], None)
+        if got_create != ("ok" if exp_create == "ok" else "err:" + exp_create):
+            ctx.violations.append({"what": f"creation with {'in' if exp_create != 'ok' else ''}consistent QoS answered {created}", "ops": c.lines})
+        if not created.startswith("ok"):
+            continue
+        ctx.count("api:set:" + setres)
+        m_set = mo[1].split()[0]
+        got_set = "ok" if setres == "ok" else setres[4:] if setres.startswith("err:") else setres
+        if got_set != m_set:
+            ctx.disagreements.append({"what": "model and implementation differ on set_qos", "ops": c.lines, "impl": setres, "model": mo[1]})
+        # oracle (DDS rules, independent of the model)
+        cons = expected("rcons" if c.meta["reader"] else "wcons", c.meta["new"], None)
+        imm = expected("rimm", c.meta["cur"], c.meta["new"])
+        exp = cons if cons != "ok" else (imm if c.meta["enabled"] else "ok")
+        if got_set != exp:
+            ctx.violations.append({"what": f"set_qos answered {setres}, the DDS rules say {exp}", "ops": c.lines})
+        before, after = qos_fields(o[5]), qos_fields(o[7])
+        if before is None or after is None:
+            ctx.violations.append({"what": "get_qos failed", "ops": c.lines, "out": o}); continue
+        if got_set != "ok" and after != before:
+            ctx.violations.append({"what": f"set_qos failed with {setres} but get_qos changed: the rejected QoS was stored",
+                                   "ops": c.lines, "before": o[5], "after": o[7]})
+        if got_set == "ok":
+            want = dict(t.split("=", 1) for t in api_tokens(c.meta["new"], c.meta["reader"]))
+            diff = {k: (after.get(k), v) for k, v in want.items() if after.get(k) != v}
+            if diff:
+                ctx.violations.append({"what": f"accepted QoS is not returned unchanged by get_qos: {diff}", "ops": c.lines})
+
+
 def run(ctx):
     r = ctx.rng
     n = 6000 if ctx.tier == "quick" else 200000
@@ -80,6 +208,10 @@ def run(ctx):
     impl = ctx.differential(ENGINE, cases, nontrivial=nontrivial, oracle=oracle, shrink=False)
     for o in impl:
         ctx.count("result:" + (o[0] if o else "?"))
+    run_api(ctx, 150 if ctx.tier == "quick" else 4000)
+
+
+BINS = ["match", "dsim"]
 
 
 LEVEL_TEXT = ("Kernel-checked Lean theorems for ALL QoS values: is_consistent of writer/reader/topic QoS accepts exactly the combinations "
@@ -88,7 +220,10 @@ LEVEL_TEXT = ("Kernel-checked Lean theorems for ALL QoS values: is_consistent of
               "exactly the changes that leave the seven immutable policies untouched (C37_immutable_iff), and the set_qos sequence is atomic "
               "(C37_error_keeps_qos, C37_success_stores_new, C37_result: InconsistentPolicy is checked first, ImmutablePolicy only when "
               "enabled). The rule functions are tied to the real private functions through cfg-guarded wrappers by a differential run; the "
-              "sequencing of set_*_qos on real entities and the announcement are partial here (three-branch model of writer_methods.rs:548-552).")
+              "set_qos sequence itself is exercised end-to-end through the public API in the deterministic simulator: create a writer/reader "
+              "(enabled or not) with one QoS, set_qos another, compare the result with the model's setQos and with the DDS rules, and check "
+              "get_qos before/after (a rejected QoS must not be stored; an accepted one is returned unchanged). The announcement of the "
+              "accepted QoS to remote participants is not checked here.")
 LEVEL_NOTE = ("Trusted: Lean kernel; Model/Match.lean (QoS rules as Boolean functions over Option/Nat with the code's own orderings); cfg(dust_dds_verif) "
               "wrappers verif_is_consistent / verif_check_immutability; Python re-statement of the DDS rules as oracle. Not covered: publisher / "
               "participant QoS setters, default-QoS setters, the announcement of the accepted QoS to remote participants.")
